@@ -1465,6 +1465,29 @@ impl PhysicalOperator for ExternalSortExec {
         // Clean up
         let _ = std::fs::remove_dir_all(&spill_dir);
 
+        // Top-K: the in-memory path hands `fetch` to SortExec; the spilled path
+        // must honour it too, or `ORDER BY .. LIMIT n` returns every row.
+        let result = match self.fetch {
+            Some(fetch) => {
+                let mut remaining = fetch;
+                let mut limited = Vec::new();
+                for batch in result {
+                    if remaining == 0 {
+                        break;
+                    }
+                    let n = batch.num_rows().min(remaining);
+                    limited.push(if n < batch.num_rows() {
+                        batch.slice(0, n)
+                    } else {
+                        batch
+                    });
+                    remaining -= n;
+                }
+                limited
+            }
+            None => result,
+        };
+
         Ok(Box::pin(stream::iter(result.into_iter().map(Ok))))
     }
 
